@@ -2,14 +2,9 @@ import FlVerif.Drv.All
 
 /-! Line-protocol driver: one S-expression per line in, one per line out (`lake env lean --run Driver.lean`). -/
 
-open SExp in
 def dispatch (e : SExp) : SExp :=
   match e with
-  | .list (cmd :: args) =>
-    let l := cmd :: args
-    match Drv.leaf l with
-    | some r => r
-    | none => .atom "bad-op"
+  | .list l => (Drv.handlers.findSome? (fun h => h l)).getD (.atom "bad-op")
   | _ => .atom "bad-op"
 
 partial def loop (h : IO.FS.Stream) (out : IO.FS.Stream) : IO Unit := do
